@@ -256,6 +256,58 @@ def r3_6(ctx):
     ctx.floor(rid, n, 50, "bounds accumulated in loops")
 
 
+# sign-normalised pairs: `const X& sc_A = is_sc ? A : minus_A;` — the members of one normalisation travel together
+R37_PAIR = {"sc_expr": "sc_denom", "minus_sc_expr": "minus_sc_denom"}
+R37_DENOMS = ("denominator", "minus_denom", "sc_denom", "minus_sc_denom")
+R37_EXPRS = ("expr", "minus_expr", "sc_expr", "lb_expr", "ub_expr")
+
+
+def r3_7(ctx):
+    import re
+    rid = "R3.7"
+    ctx.rule(rid, "a sign-normalised expression travels with its sign-normalised denominator: the affine transformers of BD_Shape and Octagonal_Shape replace (expr, denominator) by the pair (sc_expr, sc_denom) = (expr, d) or (-expr, -d), so that the denominator is positive, and hand the pair to helpers (deduce_v_minus_u_bounds, deduce_v_pm_u_bounds, ...) that only ASSERT `sc_denom > 0` and split cases on `coefficient >= sc_denom`. A call that passes `sc_expr` together with the raw `denominator` (or `minus_denom`) is right for positive denominators and applies the wrong case to every coefficient for negative ones; the same holds for the raw expression passed with `sc_denom`")
+    fx = ctx.extract([F.driver_unit("domains.cc", file_re=r"(BD_Shape_templates|Octagonal_Shape_templates)\.hh")])
+    n = 0
+    defs = 0
+    seen = set()
+    for f in fx.functions:
+        if not f.flag("pattern") or (f.relfile, f.line) in seen:
+            continue
+        seen.add((f.relfile, f.line))
+        locs = set()
+        for v in f.walk():
+            if v["k"] == "var":
+                nm = v.get("n") or v.get("name") or ""
+                if nm in ("sc_expr", "sc_denom") and v.get("c") and f.deref(v["c"][-1]) is not None and f.deref(v["c"][-1])["k"] == "cond":
+                    locs.add(nm)
+        if "sc_denom" not in locs:
+            continue
+        defs += 1
+        for c in f.calls():
+            args = [f.text(a).replace(" ", "") for a in f.call_args(c)]
+            ex = [a for a in args if a in R37_EXPRS]
+            dn = [a for a in args if a in R37_DENOMS]
+            if not ex or not dn:
+                continue
+            n += 1
+            inst = "%s: %s(%s) (line %s)" % (f.name, f.call_name(c), ", ".join(args), c.get("l"))
+            bad = None
+            for e_ in ex:
+                want = R37_PAIR.get(e_)
+                for d_ in dn:
+                    if want is not None and d_ != want:
+                        bad = (e_, d_, want)
+                    if want is None and d_ in ("sc_denom", "minus_sc_denom"):
+                        bad = (e_, d_, "denominator")
+            if bad:
+                ctx.violation(rid, inst, f.where(c), "`%s` is passed together with `%s`; its partner is `%s`: for a negative denominator the two differ in sign and the callee, which assumes a positive denominator, takes the wrong case for every coefficient" % bad)
+            else:
+                ctx.ok(rid, inst, f.where(c))
+    ctx.count(rid, "functions that normalise the sign of the denominator", defs)
+    ctx.floor(rid, defs, 8, "functions that normalise the sign of the denominator")
+    ctx.floor(rid, n, 18, "calls passing an expression together with a denominator")
+
+
 def run(ctx):
     ctx.explanation = ("C03 rounding discipline on the instantiated weakly-relational domains (double, int32_t, mpz_class; mpq_class in the thorough tier): who may round "
                        "down, where ROUND_NOT_NEEDED may be used, and the encodings it rests on; decides the discipline, not the case analysis of the transformers")
@@ -269,5 +321,6 @@ def run(ctx):
                        F.driver_unit("shapes_mpq.cc", file_re=r"(BD_Shape|Octagonal_Shape)_(templates|inlines)\.hh")])
     r3_5(ctx, fxb)
     r3_6(ctx)
+    r3_7(ctx)
     dirty.run(ctx, "R3.4", fxb, lambda f: True, 150,
               "judged on Box<Rational_Interval>, BD_Shape<mpq_class>, Octagonal_Shape<mpq_class> and their matrices (found Box::generalized_affine_preimage multiplying by a never-written temporary)")
